@@ -11,7 +11,7 @@ Lemma dist_loop : forall k f s l s', Inv s -> live k f s -> step_loop s l = Some
   live k f s' /\ dist k f s' + 1 <= dist k f s.
 Proof.
   intros k f s l s' I (F0 & FR & FY & FC) H IN NT.
-  pose proof (I_tok s I) as Itok. pose proof (I_spawn1 s I) as Isp1. pose proof (I_pend s I) as Ipd.
+  pose proof (I_tok s I) as Itok. pose proof (I_spawn1 s I) as Isp1. pose proof (I_pend s I) as Ipd. pose proof (I_nodead s I) as Ind.
   open_state s. unfold live, tokens, tok_args, tok_sel, tok_loop, spawned in *. simpl in *.
   destruct l; try match goal with k0 : kind |- _ => destruct k0 end;
     simpl in IN; try discriminate IN;
@@ -24,7 +24,7 @@ Proof.
   all: try (split; [repeat split; first [assumption | destruct k; simpl in *; assumption
            | unfold ready, readable, writable in *; simpl in *; try destruct k; simpl in *; try assumption;
              destruct f; [contradiction|]; simpl in *; assumption]|]).
-  all: unfold dist, nregs, slen, inl; simpl.
+  all: unfold dist, nregs, slen, inl, has_dead; simpl.
   all: try lia.
   all: try (destruct pend0; simpl in *; try discriminate (Ipd eq_refl); lia).
   (* Notify in _start_select: the fresh snapshot contains f *)
@@ -32,7 +32,7 @@ Proof.
                    (split; [repeat split; first [assumption | destruct k; simpl in *; assumption
                       | unfold ready, readable, writable in *; simpl in *; try destruct k; simpl in *; try assumption;
                         destruct f; [contradiction|]; simpl in *; assumption]|]);
-                   unfold dist, nregs, slen, inl; simpl; try destruct k; simpl in *; rewrite ?FR; simpl; lia ].
+                   unfold dist, nregs, slen, inl, has_dead in *; simpl in *; try destruct k; simpl in *; rewrite ?FR, ?Ind; simpl; lia ].
   all: try (destruct k; simpl in * ).
   (* HandleEnter *)
   all: try solve [ lazymatch goal with E : snap_eqb _ _ = true |- _ => idtac end; boolp; subst; simpl in *; destruct args0 as [[? ?]|]; destruct sp0; simpl in *; try lia; split_ifs; lia ].
@@ -51,5 +51,6 @@ Proof.
            destruct (next_in_keep reg x l g l' N M ltac:(assumption)) as [X|X];
            [subst; simpl in *; boolp; subst; try congruence; try discriminate; try contradiction | congruence]
        end.
+
 Qed.
 
